@@ -326,6 +326,10 @@ func demangleSingleFunction(fn *profile.Function, options []demangle.Option) {
 				name = removeMatching(name, '<', '>')
 			}
 		}
+		if name == "" {
+			// Everything was stripped (e.g. "<unknown>"): keep the name.
+			name = fn.SystemName
+		}
 	}
 	fn.Name = name
 }
